@@ -18,7 +18,7 @@ from liquid.context import RenderContext
 from liquid.exceptions import LiquidError, TemplateNotFoundError
 from liquid.loader import BaseLoader, TemplateSource
 
-from vf.hx import drive, excluded, finish
+from vf.hx import cbool, cint, drive, excluded, finish, untraced
 from vf.stubs import ModelOD, validate_model_od
 
 PROPERTY = "C23"
@@ -131,9 +131,30 @@ def c23_other_key(ns1: str, n1: str, ns2: str, n2: str, use_async: bool, cap: in
     return finish(got == ref)
 
 
+def c23_other_key_small(ns1: str, n1: str, ns2: str, n2: str, use_async: bool, cap: int) -> bool:
+    """
+    pre: len(ns1) <= 1 and len(n1) <= 1 and len(ns2) <= 1 and len(n2) <= 1
+    pre: len(n1) >= 1 and len(n2) >= 1
+    pre: (ns1, n1) != (ns2, n2)
+    pre: 1 <= cap <= 2
+    post: _
+    """
+    # a template cached under one (namespace, name) is never served for another one
+    if excluded("c23_other_key_small", locals()):
+        return True
+    items = [[ns1, n1, "ONE{{ g }}", 0], [ns2, n2, "TWO{{ g }}", 0]]
+    env_c = Environment(loader=CachingNS(items, namespace_key="ns", capacity=cap))
+    env_p = Environment(loader=NSLoader(items))
+    request(env_c, n1, ns1, False, None)
+    got = request(env_c, n2, ns2, use_async, None)
+    ref = request(env_p, n2, ns2, use_async, None)
+    return finish(got == ref)
+
+
 def c23_hit(ns: str, n: str, use_async: bool, first_async: bool, g0: Optional[int], g1: Optional[int], envg: Optional[int]) -> bool:
     """
     pre: len(ns) <= 1 and 1 <= len(n) <= 2
+    pre: (g0 is None or 0 <= g0 <= 9) and (g1 is None or 0 <= g1 <= 9) and (envg is None or 0 <= envg <= 9)
     post: _
     """
     # the same key twice: name/path/output agree with the plain loader and the SECOND request's
@@ -151,14 +172,60 @@ def c23_hit(ns: str, n: str, use_async: bool, first_async: bool, g0: Optional[in
     return finish(a == ra and b == rb)
 
 
+def c23_hit_small(ns: str, n: str, use_async: bool, first_async: bool, g0: Optional[int], g1: Optional[int], envg: Optional[int]) -> bool:
+    """
+    pre: len(ns) <= 1 and len(n) == 1
+    pre: (g0 is None or 0 <= g0 <= 9) and (g1 is None or 0 <= g1 <= 9) and (envg is None or 0 <= envg <= 9)
+    post: _
+    """
+    # the same key twice: name/path/output agree with the plain loader and the SECOND request's
+    # globals (none, or {g: g1}) apply to the returned template
+    if excluded("c23_hit_small", locals()):
+        return True
+    items = [[ns, n, "T{{ g }}", 0]]
+    eg = {} if envg is None else {"e": envg}
+    env_c = Environment(loader=CachingNS(items, namespace_key="ns", capacity=2), globals=eg)
+    env_p = Environment(loader=NSLoader(items), globals=eg)
+    a = request(env_c, n, ns, first_async, g0)
+    ra = request(env_p, n, ns, first_async, g0)
+    b = request(env_c, n, ns, use_async, g1)
+    rb = request(env_p, n, ns, use_async, g1)
+    return finish(a == ra and b == rb)
+
+
 def c23_reload(n: str, auto_reload: bool, edited: bool, use_async: bool, v: int) -> bool:
     """
     pre: 1 <= len(n) <= 2
+    pre: 0 <= v <= 9
     post: _
     """
     # a changed source is picked up on the next request when auto-reload is on; an unchanged one
     # is served identically; with auto-reload off only name/path must agree
     if excluded("c23_reload", locals()):
+        return True
+    items = [["", n, "OLD{{ g }}", 0]]
+    env_c = Environment(loader=CachingNS(items, namespace_key="ns", capacity=2, auto_reload=auto_reload))
+    env_p = Environment(loader=NSLoader(items))
+    request(env_c, n, "", False, None)
+    if edited:
+        items[0][2] = "NEW" + str(v)
+        items[0][3] = 1
+    got = request(env_c, n, "", use_async, None)
+    ref = request(env_p, n, "", use_async, None)
+    if edited and not auto_reload:
+        return finish(got[:3] == ref[:3])
+    return finish(got == ref)
+
+
+def c23_reload_small(n: str, auto_reload: bool, edited: bool, use_async: bool, v: int) -> bool:
+    """
+    pre: len(n) == 1
+    pre: 0 <= v <= 9
+    post: _
+    """
+    # a changed source is picked up on the next request when auto-reload is on; an unchanged one
+    # is served identically; with auto-reload off only name/path must agree
+    if excluded("c23_reload_small", locals()):
         return True
     items = [["", n, "OLD{{ g }}", 0]]
     env_c = Environment(loader=CachingNS(items, namespace_key="ns", capacity=2, auto_reload=auto_reload))
@@ -222,10 +289,33 @@ def c23_seq3(n1: str, n2: str, a1: bool, a2: bool, a3: bool, k2: int, k3: int, c
     """
     pre: 1 <= len(n1) <= 2 and 1 <= len(n2) <= 2 and n1 != n2
     pre: 0 <= k2 <= 3 and 0 <= k3 <= 3 and 1 <= cap <= 2
+    pre: g is None or 0 <= g <= 9
     post: _
     """
     # three requests over two names x two namespaces with eviction (capacity 1..2), mixing sync/async
     if excluded("c23_seq3", locals()):
+        return True
+    items = [["x", n1, "x1", 0], ["x", n2, "x2{{ g }}", 0], ["y", n1, "y1", 0], ["y", n2, "y2{{ g }}", 0]]
+    env_c = Environment(loader=CachingNS(items, namespace_key="ns", capacity=cap))
+    env_p = Environment(loader=NSLoader(items))
+    ok = True
+    seq = [(0, a1, None), (k2, a2, g), (k3, a3, None)]
+    for k, a, gg in seq:
+        ns = "x" if k < 2 else "y"
+        nm = n1 if k % 2 == 0 else n2
+        ok = ok and request(env_c, nm, ns, a, gg) == request(env_p, nm, ns, a, gg)
+    return finish(ok)
+
+
+def c23_seq3_small(n1: str, n2: str, a1: bool, a2: bool, a3: bool, k2: int, k3: int, cap: int, g: Optional[int]) -> bool:
+    """
+    pre: len(n1) == 1 and len(n2) == 1 and n1 != n2
+    pre: 0 <= k2 <= 3 and 0 <= k3 <= 3 and 1 <= cap <= 2
+    pre: g is None or 0 <= g <= 9
+    post: _
+    """
+    # three requests over two names x two namespaces with eviction (capacity 1..2), mixing sync/async
+    if excluded("c23_seq3_small", locals()):
         return True
     items = [["x", n1, "x1", 0], ["x", n2, "x2{{ g }}", 0], ["y", n1, "y1", 0], ["y", n2, "y2{{ g }}", 0]]
     env_c = Environment(loader=CachingNS(items, namespace_key="ns", capacity=cap))
@@ -255,54 +345,140 @@ def nm(i):
     return "nope"
 
 
-def _mk_dict(choice, nskey):
-    nm_ = "c23_%s_%s" % ("choice" if choice else "dict", "ns" if nskey else "nons")
+def _dict_case(choice, nskey, a1, i1, i2, a2, g, cap, ns):
+    key = "ns" if nskey else ""
+    if choice:
+        lc = CachingChoiceLoader([DictLoader({"a": "A{{ g }}"}), DictLoader(dict(SRC))], capacity=cap, namespace_key=key)
+        lp = ChoiceLoader([DictLoader({"a": "A{{ g }}"}), DictLoader(dict(SRC))])
+    else:
+        lc = CachingDictLoader(dict(SRC), capacity=cap, namespace_key=key)
+        lp = DictLoader(dict(SRC))
+    env_c = Environment(loader=lc)
+    env_p = Environment(loader=lp)
+    nsv = "x" if ns else None
+    ok = request(env_c, nm(i1), nsv, a1, None) == request(env_p, nm(i1), nsv, a1, None)
+    ok = ok and request(env_c, nm(i2), nsv, a2, g) == request(env_p, nm(i2), nsv, a2, g)
+    ok = ok and request(env_c, nm(i1), None, a2, None) == request(env_p, nm(i1), None, a2, None)
+    return ok
 
-    def f(i1: int, i2: int, a1: bool, a2: bool, g: Optional[int], cap: int, ns: bool) -> bool:
+
+def _mk_dict(choice, nskey, a1):
+    nm_ = "c23_%s_%s_%s" % ("choice" if choice else "dict", "ns" if nskey else "nons", "afirst" if a1 else "sfirst")
+
+    def f(i1: int, i2: int, a2: bool, g: Optional[int], cap: int, ns: bool) -> bool:
         """
         pre: 0 <= i1 <= 4 and 0 <= i2 <= 4 and 1 <= cap <= 2
+        pre: g is None or 0 <= g <= 9
         post: _
         """
         if excluded(nm_, locals()):
             return True
-        key = "ns" if nskey else ""
-        if choice:
-            lc = CachingChoiceLoader([DictLoader({"a": "A{{ g }}"}), DictLoader(dict(SRC))], capacity=cap, namespace_key=key)
-            lp = ChoiceLoader([DictLoader({"a": "A{{ g }}"}), DictLoader(dict(SRC))])
-        else:
-            lc = CachingDictLoader(dict(SRC), capacity=cap, namespace_key=key)
-            lp = DictLoader(dict(SRC))
-        env_c = Environment(loader=lc)
-        env_p = Environment(loader=lp)
-        nsv = "x" if ns else None
-        ok = request(env_c, nm(i1), nsv, a1, None) == request(env_p, nm(i1), nsv, a1, None)
-        ok = ok and request(env_c, nm(i2), nsv, a2, g) == request(env_p, nm(i2), nsv, a2, g)
-        ok = ok and request(env_c, nm(i1), None, a2, None) == request(env_p, nm(i1), None, a2, None)
-        return finish(ok)
+        gc = None if g is None else cint(g, 0, 9)
+        args = (cint(i1, 0, 4), cint(i2, 0, 4), cbool(a2), gc, cint(cap, 1, 2), cbool(ns))
+        # every argument is concrete now: the six requests run on the plain interpreter
+        return finish(untraced(lambda: _dict_case(choice, nskey, a1, *args)))
     f.__name__ = f.__qualname__ = nm_
     return nm_, f
 
 
 CONDITIONS = [
-    {"fn": "c23_other_key", "quick": 90, "thorough": 400},
-    {"fn": "c23_hit", "quick": 60, "thorough": 300},
-    {"fn": "c23_reload", "quick": 60, "thorough": 200},
+    {"fn": "c23_other_key", "quick": None, "thorough": 500},
+    {"fn": "c23_other_key_small", "quick": 90, "thorough": 200},
+    {"fn": "c23_hit", "quick": None, "thorough": 400},
+    {"fn": "c23_hit_small", "quick": 90, "thorough": 200},
+    {"fn": "c23_reload", "quick": None, "thorough": 300},
+    {"fn": "c23_reload_small", "quick": 90, "thorough": 200},
     {"fn": "c23_context_ns", "quick": 60, "thorough": 300},
     {"fn": "c23_missing", "quick": 60, "thorough": 200},
-    {"fn": "c23_seq3", "quick": 90, "thorough": 500},
+    {"fn": "c23_seq3", "quick": None, "thorough": 600},
+    {"fn": "c23_seq3_small", "quick": 100, "thorough": 300},
 ]
 for _c in (False, True):
     for _k in (False, True):
-        _n, _f = _mk_dict(_c, _k)
-        globals()[_n] = _f
-        CONDITIONS.append({"fn": _n, "quick": 100, "thorough": 500, "sel_only": True})
+        for _a in (False, True):
+            _n, _f = _mk_dict(_c, _k, _a)
+            globals()[_n] = _f
+            CONDITIONS.append({"fn": _n, "quick": 100, "thorough": 400, "sel_only": True})
+# ---- caching file system loaders with source edits between requests (real files; selectors only) -------------------
+import os  # noqa: E402
+import shutil  # noqa: E402
+import tempfile  # noqa: E402
+
+import liquid.builtin.loaders.file_system_loader as FS  # noqa: E402
+from liquid import CachingFileSystemLoader, FileSystemLoader  # noqa: E402
+
+WORK = os.path.join(os.path.dirname(os.path.dirname(os.path.abspath(__file__))), ".work")
+os.makedirs(WORK, exist_ok=True)
+
+
+class _InlineLoop:
+    def run_in_executor(self, ex, fn, *args):
+        async def _r():
+            return fn(*args)
+        return _r()
+
+
+class _Asyncio:
+    def get_running_loop(self):
+        return _InlineLoop()
+
+
+def _fs_case(a1, edit, a2, a3, auto_reload, choice, sub):
+    root = tempfile.mkdtemp(prefix="c23-", dir=WORK)
+    saved = FS.asyncio
+    FS.asyncio = _Asyncio()
+    try:
+        name = "sub/t.liquid" if sub else "t.liquid"
+        path = os.path.join(root, name)
+        os.makedirs(os.path.dirname(path), exist_ok=True)
+        with open(path, "w") as fd:
+            fd.write("version one {{ g }}")
+        os.utime(path, (1000, 1000))
+        if choice:
+            lc = CachingChoiceLoader([DictLoader({"zzz": "z"}), FileSystemLoader(root)], auto_reload=auto_reload)
+            lp = ChoiceLoader([DictLoader({"zzz": "z"}), FileSystemLoader(root)])
+        else:
+            lc = CachingFileSystemLoader(root, auto_reload=auto_reload)
+            lp = FileSystemLoader(root)
+        env_c = Environment(loader=lc)
+        env_p = Environment(loader=lp)
+        ok = request(env_c, name, None, a1, None) == request(env_p, name, None, a1, None)
+        if edit:
+            with open(path, "w") as fd:
+                fd.write("version two {{ g }}")
+            os.utime(path, (2000, 2000))
+        r2c, r2p = request(env_c, name, None, a2, 5), request(env_p, name, None, a2, 5)
+        r3c, r3p = request(env_c, name, None, a3, None), request(env_p, name, None, a3, None)
+        if edit and not auto_reload:
+            # a stale source is by design without auto-reload: only name and path must agree
+            return ok and r2c[:3] == r2p[:3] and r3c[:3] == r3p[:3]
+        return ok and r2c == r2p and r3c == r3p
+    finally:
+        FS.asyncio = saved
+        shutil.rmtree(root, ignore_errors=True)
+
+
+def c23_fs_reload(a1: bool, edit: bool, a2: bool, a3: bool, auto_reload: bool, choice: bool, sub: bool) -> bool:
+    """
+    post: _
+    """
+    # request (sync/async), optionally edit the file, request, request: every answer equals the
+    # non-caching file system loader's (the changed source is picked up when auto-reload is on)
+    if excluded("c23_fs_reload", locals()):
+        return True
+    args = (cbool(a1), cbool(edit), cbool(a2), cbool(a3), cbool(auto_reload), cbool(choice), cbool(sub))
+    return finish(untraced(lambda: _fs_case(*args)))
+
+
+CONDITIONS.append({"fn": "c23_fs_reload", "quick": 60, "thorough": 120, "sel_only": True})
+
 ASSUMPTIONS = [
     "the cache's collections.OrderedDict is replaced by vf.stubs.ModelOD (validated against the real class by the self-test)",
     "pathlib.Path in liquid.loader is replaced by FakePath (name = text after the last '/', str() = the text)",
     "the source loader for symbolic names is an association-list loader selecting by (namespace, name) with a version-based uptodate callable; the shipped CachingDictLoader / CachingChoiceLoader are exercised with names from a selector pool",
     "coroutines are driven with send(None): none of the exercised awaits suspends",
 ]
-OUTSIDE = ["request sequences longer than 3", "strings longer than 2-3 code points", "CachingFileSystemLoader (exercised by C22 and C01 with concrete names)"]
+OUTSIDE = ["request sequences longer than 3", "strings longer than 2-3 code points"]
 
 
 def selftest():
